@@ -55,3 +55,10 @@ Example C08_drop_flushes_under_backpressure :
   map (fun o => length (o_a o)) outs = [1; 0; 0; 0; 0; 0; 0; 0; 0; 0; 4]%nat /\
   o_a_closed (last outs (mkLout [] [] [] false [] false [])) = true.
 Proof. vm_compute. auto. Qed.
+
+(* a burst of messages reaching the task in one poll is processed exactly as the same messages
+   arriving one per poll, as long as none of them makes the receive loop fail (when one does, the
+   error-caused wind-down additionally dispatches what is already in the source) *)
+From PV Require Import Mux.Burst.
+Theorem C08_burst_is_sequential : forall ms f, no_rx_error f ms -> deliver_all f ms = seq_deliver f ms.
+Proof. exact burst_is_sequential. Qed.
